@@ -82,10 +82,14 @@ func resetEffects(p *Program, fn *ssa.Function, sn string, cover map[string]*fie
 				set(f, "store in "+funcShortName(fn), kind, in)
 				return
 			}
-			// element store: f[i] = zero
+			// element store: f[i] = zero, in a loop over all of f
 			if ia, ok := x.Addr.(*ssa.IndexAddr); ok {
 				if s, f, base, ok := loadedField(ia.X); ok && s == sn && root(base) == ssa.Value(recv) {
-					set(f, "element store in "+funcShortName(fn), "zeroed", in)
+					if bf, known := loopBoundField(ia.Index, sn, recv); known && bf != f {
+						set(f, "element store in "+funcShortName(fn)+" in a loop bounded by len("+bf+"), not len("+f+")", "truncated", in)
+					} else {
+						set(f, "element store in "+funcShortName(fn), "zeroed", in)
+					}
 				}
 			}
 		case ssa.CallInstruction:
@@ -123,7 +127,15 @@ func resetEffects(p *Program, fn *ssa.Function, sn string, cover map[string]*fie
 				}
 				// on an element obtained by ranging / indexing the loaded field
 				if f := elementOfField(first, sn, recv); f != "" {
-					set(f, name+" on every element in "+funcShortName(fn), "zeroed", in)
+					kind := "zeroed"
+					if u, ok := first.(*ssa.UnOp); ok {
+						if ia, ok := u.X.(*ssa.IndexAddr); ok {
+							if bf, known := loopBoundField(ia.Index, sn, recv); known && bf != f {
+								kind = "truncated"
+							}
+						}
+					}
+					set(f, name+" on every element in "+funcShortName(fn), kind, in)
 				}
 			}
 			// same-receiver helper
@@ -482,4 +494,38 @@ func (p *Program) reachableFrom(fn *ssa.Function) map[*ssa.Function]bool {
 		}
 	}
 	return out
+}
+
+// loopBoundField: idx is the index variable of a loop `for i := range x.g` /
+// `for i := 0; i < len(x.g); i++`; returns g. known=false when the bound is
+// not the length of a field of the receiver.
+func loopBoundField(idx ssa.Value, sn string, recv *ssa.Parameter) (string, bool) {
+	cands := []ssa.Value{idx}
+	if bo, ok := idx.(*ssa.BinOp); ok && bo.Op == token.ADD {
+		cands = append(cands, bo.X)
+	}
+	for _, cnd := range cands {
+		refs := cnd.Referrers()
+		if refs == nil {
+			continue
+		}
+		for _, r := range *refs {
+			bo, ok := r.(*ssa.BinOp)
+			if !ok || bo.Op != token.LSS || bo.X != cnd {
+				continue
+			}
+			call, ok := bo.Y.(*ssa.Call)
+			if !ok {
+				continue
+			}
+			if b, ok := call.Call.Value.(*ssa.Builtin); !ok || b.Name() != "len" {
+				continue
+			}
+			if s, f, base, ok := loadedField(call.Call.Args[0]); ok && s == sn && root(base) == ssa.Value(recv) {
+				return f, true
+			}
+			return "?", true
+		}
+	}
+	return "", false
 }
